@@ -173,6 +173,32 @@ pub fn c11(args: &Args) {
                             "out":vec_or_panic(|| verif::ntt_ifft(&verif::ntt_hadamard_mul(&verif::ntt_fft(&a), &verif::ntt_fft(&b)))),"tag":"mul"}));
         }
     }
+    // degenerate and structured operands at every length: zero, one, monomials, constants -- in both operand positions
+    for w in 0..=10usize {
+        let n = 1usize << w;
+        if !thorough && ![1usize, 2, 8, 64, 512, 1024].contains(&n) {
+            continue;
+        }
+        let zero = vec![0i16; n];
+        let mut one = vec![0i16; n];
+        one[0] = 1;
+        let mut minus_one = vec![0i16; n];
+        minus_one[0] = 12288;
+        let mut xlast = vec![0i16; n];
+        xlast[n - 1] = 1;
+        let mut xmid = vec![0i16; n];
+        xmid[n / 2] = 12288;
+        let gen: Vec<i16> = (0..n).map(|_| rng.gen_range(0..Q as i16)).collect();
+        let consts = vec![6145i16; n];
+        let ops: Vec<(&Vec<i16>, &Vec<i16>)> = vec![(&zero, &gen), (&gen, &zero), (&zero, &zero), (&one, &gen), (&gen, &one), (&minus_one, &gen), (&xlast, &gen),
+                                                    (&gen, &xlast), (&xlast, &xlast), (&xmid, &xmid), (&consts, &gen), (&one, &one), (&zero, &one)];
+        for (a, b) in ops {
+            out.emit(json!({"ev":"mul","n":n,"a":i16s_json(a),"b":i16s_json(b),
+                            "out":vec_or_panic(|| verif::ntt_ifft(&verif::ntt_hadamard_mul(&verif::ntt_fft(a), &verif::ntt_fft(b)))),"tag":"mul-degenerate"}));
+        }
+        out.emit(json!({"ev":"fft","n":n,"a":i16s_json(&zero),"out":vec_or_panic(|| verif::ntt_fft(&zero)),"tag":"fft-zero"}));
+        out.emit(json!({"ev":"roundtrip","n":n,"a":i16s_json(&zero),"out":vec_or_panic(|| verif::ntt_ifft(&verif::ntt_fft(&zero))),"tag":"roundtrip-zero"}));
+    }
     // prefix-related inputs in consecutive calls: v[..n] for growing and then shrinking n (a memo keyed by content without the
     // length, or a buffer not truncated, answers the previous call's result)
     {
